@@ -77,6 +77,7 @@ type schema struct {
 	corpus  bool
 	syntax  string
 	compile bool
+	pkg     string // package directory under gen/<rt>/ (several corpus files may share one)
 }
 
 func countMsgs(ms []*descriptorpb.DescriptorProto, prefix string, out *[]string) {
@@ -97,7 +98,7 @@ func schemas() []schema {
 				continue
 			}
 			fd := corpus.Build(spec, rt)
-			s := schema{id: string(rt) + "/" + spec.Name, rt: rt, file: spec.Name, fds: corpus.BuildWithDeps(spec, rt), gen: fd.GetName(), corpus: true, syntax: spec.Syntax, compile: true}
+			s := schema{id: string(rt) + "/" + spec.Name, rt: rt, file: spec.Name, fds: corpus.BuildWithDeps(spec, rt), gen: fd.GetName(), corpus: true, syntax: spec.Syntax, compile: true, pkg: spec.Pkg()}
 			countMsgs(fd.MessageType, "", &s.msgs)
 			out = append(out, s)
 		}
@@ -381,7 +382,7 @@ func main() {
 		byID[s.id] = s
 	}
 	for _, rt := range corpus.Runtimes {
-		for _, pair := range [][2]string{{"p3", "p3imp"}, {"p2", "p2imp"}, {"p2", "p3"}, {"p2ext", "names"}, {"p2nestreq", "p2"}, {"p3wkt", "p2wkt"}} {
+		for _, pair := range [][2]string{{"p3", "p3imp"}, {"p2", "p2imp"}, {"p2", "p3"}, {"p2ext", "names"}, {"p2nestreq", "p2"}, {"p3wkt", "p2wkt"}, {"p3pkg", "p3pkgb"}, {"p2pkg", "p2pkgb"}} {
 			a, okA := byID[string(rt)+"/"+pair[0]]
 			b, okB := byID[string(rt)+"/"+pair[1]]
 			if !okA || !okB {
@@ -522,7 +523,9 @@ func main() {
 				os.WriteFile(p, []byte(content), 0o644)
 				replace[filepath.Join(ev.VerifDir(), "mc", "gen", name)] = p
 			}
-			pkgs = append(pkgs, "./gen/"+string(s.rt)+"/"+s.file)
+			if pd := "./gen/" + string(s.rt) + "/" + s.pkg; len(pkgs) == 0 || pkgs[len(pkgs)-1] != pd {
+				pkgs = append(pkgs, pd)
+			}
 		}
 		ov, _ := json.Marshal(map[string]any{"Replace": replace})
 		ovp := filepath.Join(dir, "overlay.json")
@@ -597,7 +600,7 @@ func main() {
 	r.Nontrivial(ok)
 	r.Sample(map[string]any{"schema": scs[0].id, "messages": scs[0].msgs, "options": opts[5].param()})
 	r.Sample(map[string]any{"schema": scs[len(scs)-1].id, "messages": len(scs[len(scs)-1].msgs), "note": "repository example schema, descriptors recovered from the registered file"})
-	r.Rule("full product: every corpus file of every runtime flavour + the repository's three google-v2 example schemas x {apiversion v1,v2} x {single file, file per message} x {unsafe off,on} x {specialname none, Size}; each request is run twice through the plug-in built from the current sources: no error, byte-identical responses, documented file names (single: <prefix>.pb.fm.go; per message: <prefix>_<lower(message)>.pb.fm.go, pairwise distinct also case-insensitively, one per message), every file parses; per-message function bodies equal the single-file ones; enableunsafedecode only adds the SetMode lines (one per message); requests naming two files to generate (6 file pairs per runtime, both orders, single-file and per-message mode) return exactly the files of the two single-file requests; and the outputs of 5 option sets are compiled together with the runtime's message types (matching apiversion). distinct_nontrivial = (schema, option) requests that produced output and passed the per-request checks.")
+	r.Rule("full product: every corpus file of every runtime flavour + the repository's three google-v2 example schemas x {apiversion v1,v2} x {single file, file per message} x {unsafe off,on} x {specialname none, Size}; each request is run twice through the plug-in built from the current sources: no error, byte-identical responses, documented file names (single: <prefix>.pb.fm.go; per message: <prefix>_<lower(message)>.pb.fm.go, pairwise distinct also case-insensitively, one per message), every file parses; per-message function bodies equal the single-file ones; enableunsafedecode only adds the SetMode lines (one per message); requests naming two files to generate (8 file pairs per runtime, two of them the two files of ONE Go package, both orders, single-file and per-message mode) return exactly the files of the two single-file requests; and the outputs of 5 option sets are compiled together with the runtime's message types (matching apiversion). distinct_nontrivial = (schema, option) requests that produced output and passed the per-request checks.")
 	r.Assume("invalid option VALUES are outside the quantifier; apiversion is compiled only with its matching runtime (v1: gogo, legacy; v2: gv2, gv1)")
 	r.Assume("schemas with proto3 optional are only generated for the google flavours (protoc-gen-gogo does not support them)")
 	r.Finish()
